@@ -79,7 +79,6 @@ func (pexR *PEXReactor) GetChannels() []*ChannelDescriptor {
 // Implements Reactor
 func (pexR *PEXReactor) AddPeer(peer *Peer) {
 	// Add the peer to the address book
-	netAddr, _ := NewNetAddressString(peer.ListenAddr)
 	if peer.IsOutbound() {
 		if pexR.book.NeedMoreAddrs() {
 			pexR.RequestPEX(peer)
@@ -87,6 +86,13 @@ func (pexR *PEXReactor) AddPeer(peer *Peer) {
 	} else {
 		// For inbound connections, the peer is its own source
 		// (For outbound peers, the address is already in the books)
+		// The listen address is whatever the peer put into its node info: this runs
+		// on the listener routine, which has no recover.
+		netAddr, err := NewNetAddressString(peer.ListenAddr)
+		if err != nil || netAddr == nil {
+			log.Warn("peer announced an unusable listen address", zap.String("listenAddr", peer.ListenAddr))
+			return
+		}
 		pexR.book.AddAddress(netAddr, netAddr)
 	}
 }
